@@ -401,7 +401,31 @@ func runVecHistory(r *rand.Rand, p vecParams, o vecHistOpts, t *Trace) *Case {
 			if r.Intn(10) < 3 {
 				cutoff = r.Intn(3)
 			}
-			s := idx.NewSearch().WithK(k).WithThreshold(thr).WithScoreAggregation(aggs[aggz]).WithCutoff(cutoff).WithNProbes(np)
+			// builder defaults are part of the interface: k 10, no threshold, no cutoff, sqrt(nlist) probes.
+			// A parameter that happens to equal its default is sometimes left to the builder.
+			s := idx.NewSearch().WithScoreAggregation(aggs[aggz])
+			if r.Intn(8) == 0 {
+				k = 10
+				t.Stat("vec.search_default_k")
+			} else {
+				s = s.WithK(k)
+			}
+			if thr == 0 && r.Intn(2) == 0 {
+				t.Stat("vec.search_default_threshold")
+			} else {
+				s = s.WithThreshold(thr)
+			}
+			if cutoff == -1 && r.Intn(2) == 0 {
+				t.Stat("vec.search_default_cutoff")
+			} else {
+				s = s.WithCutoff(cutoff)
+			}
+			if (p.kind == 1 || p.kind == 3) && r.Intn(8) == 0 {
+				np = int(math.Sqrt(float64(p.nlist)))
+				t.Stat("vec.search_default_nprobes")
+			} else {
+				s = s.WithNProbes(np)
+			}
 			if nq > 0 {
 				qc := make([][]float32, nq)
 				for i := range qs {
